@@ -1074,6 +1074,65 @@ def _enclosing_name(node) -> str:
 
 
 # ---------------------------------------------------------------------------
+def _r20f(chk, repo) -> None:
+    """Under disable_noqa_except the special codes are added to the reference map precisely so that the
+    restriction can empty them: if the returned map is built from a map WITHOUT them, _parse_noqa finds no
+    key for 'PRS', keeps the raw reference, and `-- noqa: PRS` hides parse errors although noqa was
+    switched off for them."""
+    f = repo.fn(LINTER, "Linter.allowed_rule_ref_map")
+    cfg = cfg_of(f)
+
+    def canon(name: str, at) -> Tuple[str, frozenset]:
+        """follow plain aliases (a = b) to the underlying binding"""
+        seen = set()
+        cur, where = name, at
+        while cur not in seen:
+            seen.add(cur)
+            ds = cfg.reaching().defs_at(where, cur)
+            if len(ds) == 1:
+                d = next(iter(ds))
+                if getattr(d, "kind", "") == "assign" and isinstance(d.value, ast.Name) and not d.path:
+                    cur, where = d.value.id, d.stmt
+                    continue
+            return cur, frozenset(id(d) for d in ds)
+        return cur, frozenset()
+
+    stores = []
+    for st in walk_local(f):
+        if isinstance(st, ast.Assign):
+            for t in st.targets:
+                if isinstance(t, ast.Subscript) and isinstance(t.value, ast.Name):
+                    stores.append((st, t.value.id))
+    chk.count("R20f.special_code_stores", len(stores))
+    if not stores:
+        raise AnalysisError("R20f: allowed_rule_ref_map no longer stores the special codes into a map (rewritten; re-read it)")
+    filled = {canon(nm, st) for st, nm in stores}
+    n = 0
+    for r in [x for x in walk_local(f) if isinstance(x, ast.Return) and x.value is not None]:
+        v = r.value
+        if isinstance(v, ast.Name):
+            os_ = origins(cfg, v, r)
+            v = os_[0].expr if len(os_) == 1 and os_[0].kind == "expr" else v
+        if not isinstance(v, (ast.DictComp, ast.Call)):
+            continue  # the unrestricted early return (`return reference_map`) is R20b's business
+        its = [g.iter for g in v.generators] if isinstance(v, ast.DictComp) else [a for a in v.args]
+        for it in its:
+            root = it
+            while isinstance(root, (ast.Call, ast.Attribute)):
+                root = root.func if isinstance(root, ast.Call) else root.value
+            if not isinstance(root, ast.Name):
+                continue
+            n += 1
+            chk.require(
+                canon(root.id, r) in filled, "R20f", r,
+                f"the restricted map is built by iterating `{norm(it)}`, which is not the map the special codes PRS/LXR/TMP were stored into "
+                f"({sorted(nm for _, nm in stores)}): those codes are missing from the result, `-- noqa: PRS` then matches literally and hides parse errors that noqa was disabled for",
+                detail="restricted map iterates the map that holds the special codes",
+            )
+    chk.count("R20f.restricted_returns", n)
+    chk.floor("R20f.restricted_returns", 1)
+
+
 def run(chk) -> None:
     repo = chk.repo
     chk.rule("R20a", "every IgnoreMask construction outside noqa.py is reachable only when 'not disable_noqa or disable_noqa_except' is known; a LintedFile stores None or such a mask")
@@ -1087,6 +1146,8 @@ def run(chk) -> None:
     _r20b(chk, repo, mask_cls, sites)
     _r20c(chk, repo, mask_cls)
     _r20d_e(chk, repo)
+    chk.rule("R20f", "allowed_rule_ref_map restricts the very map that was given the special codes PRS/LXR/TMP: the returned map is built by iterating the object those keys were stored into (or an alias of it)")
+    _r20f(chk, repo)
     chk.note("Partial claim: wiring, gating, sibling agreement and marking of the noqa machinery. The algebra over line numbers, ranges and rule sets (which directive covers which line) is value-level and not decided.")
 
 
@@ -1095,6 +1156,24 @@ from ..selftest import Variant  # noqa: E402
 CMDS = "src/sqlfluff/cli/commands.py"
 
 VARIANTS: List[Variant] = [
+    Variant(
+        "restricted-map-built-from-the-map-without-special-codes", LINTER,
+        "        output_map = reference_map\n        # Add the special rules",
+        "        output_map = dict(reference_map)\n        # Add the special rules",
+        "QUIET", None, "working on a copy is fine as long as the copy is what gets restricted",
+    ),
+    Variant(
+        "restricted-map-iterates-the-original", LINTER,
+        "        return {k: v.intersection(noqa_set) for k, v in output_map.items()}\n",
+        "        return {k: v.intersection(noqa_set) for k, v in reference_map.items()}\n",
+        "QUIET", None, "today output_map IS reference_map (alias), so iterating either is the same object",
+    ),
+    Variant(
+        "special-codes-on-a-copy-result-from-the-original", LINTER,
+        "        output_map = reference_map\n        # Add the special rules so they can be excluded for `disable_noqa_except` usage\n        for special_rule in [\"PRS\", \"LXR\", \"TMP\"]:\n            output_map[special_rule] = {special_rule}\n",
+        "        output_map = dict(reference_map)\n        for special_rule in [\"PRS\", \"LXR\", \"TMP\"]:\n            output_map[special_rule] = {special_rule}\n        output_map, reference_map = reference_map, output_map\n",
+        "R20f", "allowed_rule_ref_map", "seeded C20-2 (same effect): PRS/LXR/TMP missing from the restricted map",
+    ),
     # ---- behaviour-preserving edits: the check must stay quiet -------------------------------
     Variant(
         "quiet-gate-through-flag-local", LINTER,
